@@ -120,6 +120,7 @@ type Obligation struct {
 	Cands  []*smt.Term // candidate index terms for instantiation
 	InFunc string      // function whose body produced the obligation (inlined callee)
 	Results []Value    // result values at the return site (post obligations)
+	Recs    []*CallRec // ghost trace at the point of the obligation (replay of scripted interfaces)
 }
 
 func (o *Obligation) Name() string {
@@ -840,7 +841,7 @@ func (e *Exec) oblige(st *State, kind, label string, goal *smt.Term, pos token.P
 		return
 	}
 	if e.dry == 0 {
-		o := &Obligation{Func: e.fnName, Kind: kind, Label: label, Guard: st.guard, Goal: goal, Facts: st.facts, InFunc: e.curFn().String()}
+		o := &Obligation{Func: e.fnName, Kind: kind, Label: label, Guard: st.guard, Goal: goal, Facts: st.facts, InFunc: e.curFn().String(), Recs: st.recs}
 		if pos.IsValid() {
 			o.Pos = e.Prog.Fset.Position(pos)
 		}
